@@ -8,12 +8,12 @@ Import ListNotations.
 (* the translated loop and the hand-written step machine agree on every script: where the loop stands,
    the pending result, the jobs taken, the results accepted, the sentinel put back *)
 Theorem c20_code_refines_model : forall exec script,
-  obs gen_worker_run_ix_result (run_code exec script) = mobs (run exec true script).
+  obs gen_worker_run_ix_pending (run_code exec script) = mobs (run exec true script).
 Proof. exact gen_worker_run_ok. Qed.
 
 (* results accepted by the output queue, then the at most one pending result, are exec of the jobs taken, in order *)
 Theorem c20_code_no_loss_no_dup_in_order : forall exec script, let pg := run_code exec script in
-  g_acc (snd pg) ++ WorkerP.opt_list (prog_pending gen_worker_run_ix_result (fst pg)) = map exec (g_taken (snd pg)).
+  g_acc (snd pg) ++ WorkerP.opt_list (prog_pending gen_worker_run_ix_pending (fst pg)) = map exec (g_taken (snd pg)).
 Proof. exact code_safety. Qed.
 
 (* return after the sentinel: everything delivered, sentinel put back exactly once *)
